@@ -99,7 +99,8 @@ def outline_case(draw):
                               "cols": order, "rows": rows})
     edits = []
     for _ in range(draw(st.integers(0, 3)) if draw(st.booleans()) else 0):
-        kind = draw(st.sampled_from(["add_row", "add_column", "ensure_column", "remove_column"]))
+        kind = draw(st.sampled_from(["add_row", "add_column", "ensure_column", "remove_column", "remove_columns",
+                                     "broken_build"]))
         edits.append({"op": kind, "ex": draw(st.integers(0, 2)), "col": draw(st.sampled_from(COLS + [u"new"])),
                       "values": [draw(st.sampled_from(VALUES)) for _ in range(4)]})
     return {"outline": outline, "schema": draw(st.sampled_from(SCHEMAS)), "edits": edits,
@@ -258,6 +259,40 @@ def check(case):
                 for cells, _ln in ex["rows"]:
                     del cells[k]
                 applied += 1
+            elif e["op"] == "remove_columns":
+                # several columns at once; an unknown name among them raises KeyError (caught here, as a hook's
+                # error handling would): the columns named before it are gone, those after it are still there
+                if e["col"] not in ex["cols"] or len(ex["cols"]) < 2:
+                    continue
+                ghost_first = e["values"][0] == VALUES[0]
+                names = [u"ghost", e["col"]] if ghost_first else [e["col"], u"ghost"]
+                if e["values"][1] == VALUES[0]:
+                    names = [e["col"]]
+                try:
+                    table.remove_columns(names)
+                except KeyError:
+                    res.label("table-edits:remove_columns-partly-done")
+                if e["col"] not in table.headings:
+                    k = ex["cols"].index(e["col"])
+                    del ex["cols"][k]
+                    for cells, _ln in ex["rows"]:
+                        del cells[k]
+                if list(table.headings) != ex["cols"]:
+                    res.fail("C06.table-api", "remove_columns(%r) left the headings %r, expected %r"
+                             % (names, list(table.headings), ex["cols"]))
+                applied += 1
+            elif e["op"] == "broken_build":
+                # a build that fails half-way (unusable name schema; the error is caught, as behave's hook error
+                # handling does) and is repeated after the cause is gone: the second build is complete
+                if not applied:
+                    continue
+                good = oobj.annotation_schema
+                oobj.annotation_schema = u"{name} -- {no_such_field}"
+                try:
+                    oobj.scenarios
+                except Exception:   # noqa
+                    res.label("table-edits:failed-build-then-rebuilt")
+                oobj.annotation_schema = good
         if applied:
             want2 = expected_scenarios(outline, examples, case.get("schema"))
             got = actual_scenarios(oobj)
@@ -313,7 +348,9 @@ def explore(rec):
 
 def required_labels(tier):
     return ["rows:3", "blocks:0", "blocks:2", "column-orders-differ", "parametrised-tag", "placeholder-in-docstring",
-            "placeholder-in-table", "schema", "table-edits"]
+            "placeholder-in-table", "schema", "table-edits", "table-edits:remove_columns-partly-done",
+            "table-edits:failed-build-then-rebuilt"]
 
 
 KNOWN_PREDICATES = {}
+RULE = RULE + " " + ('Table edits include remove_columns() with an unknown name among the names (KeyError caught, partial effect modelled) and a build that fails on an unusable name schema, is caught, and is repeated with the schema restored.')
